@@ -395,9 +395,13 @@ mod imp {
         mop!(t, "product", |a, m| rm([a, m.m[1]].iter().product()));
         mop!(t, "col", |a, m| rv(a.col(1)));
         mop!(t, "row", |a, m| rv(a.row(2)));
+        // index-taking accessors at every index
+        mop!(t, "col,row(all)", |a, m| o([0usize, 1, 2].map(|i| (a.col(i).to_array(), a.row(i).to_array()))));
         mop!(t, "z_axis", |a, m| rv(a.z_axis));
         mop!(t, "mul_vec3a", |a, m| rv(a * m.v[0]));
         mop!(t, "col_mut", |a, m| { let mut c = a; *c.col_mut(0) = m.v[0]; rm(c) });
+        mop!(t, "col_mut(1)", |a, m| { let mut c = a; *c.col_mut(1) = m.v[0]; rm(c) });
+        mop!(t, "col_mut(2)", |a, m| { let mut c = a; c.col_mut(2).y = m.v[0].x; rm(c) });
         mop!(t, "Affine3A{matrix3}", |a, m| ra(Affine3A { matrix3: a, translation: m.v[0] }));
         mop!(t, "determinant", |a, m| o(a.determinant()));
         mop!(t, "mul_vec3", |a, m| o(a * Vec3::new(1.0, -2.0, 0.5)));
@@ -406,6 +410,8 @@ mod imp {
         mop!(t, "Mat3::from", |a, m| o(Mat3::from(a)));
         mop!(t, "Mat4::from_mat3a", |a, m| o(Mat4::from_mat3a(a)));
         mop!(t, "Mat2::from_mat3a", |a, m| o((Mat2::from_mat3a(a), Mat2::from_mat3a_minor(a, 1, 2), Mat2::from_mat3a_minor(a, 2, 0))));
+        // every (column, row) pair of the minor constructor
+        mop!(t, "Mat2::from_mat3a_minor(all 9)", |a, m| o([0usize, 1, 2].map(|i| [0usize, 1, 2].map(|j| Mat2::from_mat3a_minor(a, i, j).to_cols_array()))));
         mop!(t, "Affine2::from_mat3a", |a, m| o(Affine2::from_mat3a(a)));
         mop!(t, "eq", |a, m| o((a == m.m[0], a == a, a != m.m[1])));
         mop!(t, "abs_diff_eq", |a, m| o((a.abs_diff_eq(m.m[0], 100.0), a.abs_diff_eq(a, 0.0))));
@@ -451,6 +457,8 @@ mod imp {
         bop!(t, "xor", |a, m| rb(a ^ m.b[0]));
         bop!(t, "not", |a, m| rb(!a));
         bop!(t, "set", |a, m| { let mut c = a; c.set(1, true); rb(c) });
+        bop!(t, "set(0,false)", |a, m| { let mut c = a; c.set(0, false); rb(c) });
+        bop!(t, "set(2,true)", |a, m| { let mut c = a; c.set(2, true); rb(c) });
         bop!(t, "xor_assign", |a, m| { let mut c = a; c ^= m.b[1]; rb(c) });
         bop!(t, "select", |a, m| rv(Vec3A::select(a, m.v[0], m.v[1])));
         bop!(t, "any_all_bitmask", |a, m| o((a.any(), a.all(), a.bitmask())));
